@@ -39,7 +39,7 @@ REQUIRED_THEOREMS = [
     "M1L.no_pull_after_abort_observed",
 ]
 EXTRA_LEAN_MODULES = ("JoblibProofs.M1L",)
-EXTRA_LEAN_TARGETS = ("drv_m1l",)
+EXTRA_LEAN_TARGETS = ("drv_m1l", "drv_m1lseq")
 TRUSTED_EXTRA = [
     "M1L (lean/JoblibModel/ParallelLock.lean, theorems M1L.*): a second, small-step, multi-threaded model of the same protocol; one atomic step = the code of one thread between two scheduling points (outermost acquire/release of Parallel._lock, a backend call, time.sleep, an unlocked access to _aborting/_exception/_iterating/_original_iterator/n_dispatched_tasks/n_completed_tasks/_jobs/tracker status), any number of callback threads, every interleaving; scope: one call on a fresh object, ordered modes, no timeout; tied to the code by step-log equality of forced real-thread schedules (instrumented lock, controllable backend, descriptor-instrumented shared attributes, no line numbers); assumed: threading.RLock mutual exclusion, atomicity of a single attribute load/store under the GIL; accesses to attributes outside the list and the input iterator's __next__ are atomic with their segment; termination under the drain schedule is proved (M1L.quiescent_termination*)",
     "M1 granularity: completion callbacks are atomic and happen at hook points of the caller (configure, compute_batch_size, sleep, consumer "
